@@ -15,7 +15,7 @@ import (
 func init() {
 	register(&propDef{
 		id: "C18", level: "other", run: runC18,
-		explanation: "Decided: (R1) in every container router the arm of each message type the property names (record, lap, session, segment_lap, event) calls tmp.expandComponents() on the same variable before storing it; (R2) bit-slice lint over every expandComponents body: each recognised slice T((src >> s) & ((1<<b)-1)) has s+b <= width(src) and b <= width(dest type), slices of one source are contiguous from bit 0, each block is guarded by src != <the invalid value the constructor uses>, and a left shift is never applied to an operand narrower than the type it is then widened to; (R3) accumulator discipline: every uint32Accumulator is built by uint32NewAccumulator(k) (a zero-valued one has mask 0), accumulate has the form acc += (v - last) & mask; last = v, and accumulators are not package-level (per-file accumulation). NOT decided: the component layout against the SDK profile (the 21.115 workbook is not in the repository) and computed sums over streams. (R2-source-order) blocks of one expandComponents body that share a field stand in the struct order of their sources; (R2-subfield-agreement) reference values sharing one arm of the dynamic getter have identical expansion arms.",
+		explanation: "Decided: (R1) in every container router the arm of each message type the property names (record, lap, session, segment_lap, event) calls tmp.expandComponents() on the same variable before storing it; (R2) bit-slice lint over every expandComponents body: each recognised slice T((src >> s) & ((1<<b)-1)) has s+b <= width(src) and b <= width(dest type), slices of one source are contiguous from bit 0, each block is guarded by src != <the invalid value the constructor uses>, and a left shift is never applied to an operand narrower than the type it is then widened to; (R3) accumulator discipline: every uint32Accumulator is built by uint32NewAccumulator(k) (a zero-valued one has mask 0), accumulate has the form acc += (v - last) & mask; last = v, and accumulators are not package-level (per-file accumulation). NOT decided: the component layout against the SDK profile (the 21.115 workbook is not in the repository) and computed sums over streams. (R2-source-order) blocks of one expandComponents body that share a field stand in the struct order of their sources; (R2-subfield-agreement) reference values sharing one arm of the dynamic getter have identical expansion arms. (R3-accumulator-mask) the roll-over mask is written by the constructor only and no accumulator is overwritten as a whole.",
 		trusted:     []string{"Go shift/conversion semantics", "the constructor invalid values proven by C15-4"},
 	})
 }
